@@ -59,6 +59,10 @@ def cases(tier, seed):
         for rows in (0, 1):
             for dtf in (0.25, 1.0, 8.0):
                 out.append({"units": u, "nrows": rows, "rho": 1.0, "dtf": dtf})
+    # huge step sizes (dt = 1e9 ... 1e12; lamb_min is 1e-12) on problems with curvature-free directions (LP part, slack variables)
+    for dt in (1e9, 1e10, 1e12):
+        for nrows in (0, 1):
+            out.append({"hugedt": True, "dt": dt, "nrows": nrows, "rho": 1.0})
     for pattern in ("boxed", "mixed"):
         for k in ((0, 2) if tier == "quick" else range(5)):
             for rho in RHOS:
@@ -302,9 +306,94 @@ def units_case(case):
     return {"outcome": "agree" if not viol else "violating", "key": keys, "violations": vs, "stats": stats}
 
 
+def _ld_solve(A, b):
+    """Gaussian elimination with partial pivoting in extended precision (reference for systems of condition 1e9 ... 1e13)."""
+    A = np.array(A, dtype=np.longdouble)
+    b = np.array(b, dtype=np.longdouble)
+    n = len(b)
+    for k in range(n):
+        p = k + int(np.argmax(np.abs(A[k:, k])))
+        if p != k:
+            A[[k, p]] = A[[p, k]]
+            b[[k, p]] = b[[p, k]]
+        for i in range(k + 1, n):
+            f = A[i, k] / A[k, k]
+            A[i, k:] -= f * A[k, k:]
+            b[i] -= f * b[k]
+    x = np.zeros(n, dtype=np.longdouble)
+    for k in range(n - 1, -1, -1):
+        x[k] = (b[k] - A[k, k + 1:].dot(x[k + 1:])) / A[k, k]
+    return np.array(x, dtype=float)
+
+
+def hugedt_case(case):
+    from pygradflow.iterate import Iterate
+    from pygradflow.step.solver import step_solver
+    from pygradflow.step.step_solver_error import StepSolverError
+    from pygradflow.transform import Transformation
+    from pgfmc.drive import grid as G
+    from pgfmc.drive.problems import UserProblem
+    from pgfmc.drive.run import make_params
+
+    rows = [{"a": [1.0, 1.0, 0.5], "b": 0.0, "lb": -0.5, "ub": 0.75}] if case["nrows"] else []
+    # x0: curvature 2, x1: curvature-free (linear part), x2: tiny curvature
+    spec = G.raw(3, {"H": [[2.0, 0.0, 0.0], [0.0, 0.0, 0.0], [0.0, 0.0, 1e-3]], "g": [1.0, -2.0, 0.5]}, rows, [-1.0, -2.0, "-inf"], [2.0, 1.5, 3.0],
+                 [0.5, -0.3, 0.1], f"hugedt|{case['nrows']}")
+    rho, dt = case["rho"], case["dt"]
+    prob = UserProblem(spec)
+    F = O.Funcs(spec)
+    T = O.RefTrans(F)
+    m = T.m
+    viol, keys = [], []
+    stats = {"solves": 0, "compared": 0}
+    xb = np.clip(np.array([0.5, -0.3, 0.1, 0.2][: T.n]), T.var_lb, T.var_ub)
+    for ss in ("Standard", "Extended", "Symmetric", "Asymmetric"):
+        params = make_params({"step_solver": ss})
+        tr = Transformation(prob, params)
+        P, ev = tr.trans_problem, tr.evaluator
+        for y in (np.array([1.5][:m]), np.zeros(m)):
+            R0 = O.RefPoint(T, xb, y)
+            for bits in itertools.product([False, True], repeat=T.n):
+                A = np.array(bits, dtype=bool)
+                # reference from the residual scaled by 1/dt (entries of order one and 1/dt), solved in extended precision
+                Jm = O.implicit_jac(T, R0, rho, dt, A) / dt
+                Fv = O.implicit_value(T, (xb, y), R0, rho, dt, A) / dt
+                cond = np.linalg.cond(Jm)
+                if not np.isfinite(cond) or cond > 1e14:
+                    continue
+                s_ = _ld_solve(Jm, Fv)
+                xn = np.clip(xb - s_[: T.n], T.var_lb, T.var_ub)
+                yn = y - s_[T.n:]
+                it0 = Iterate(P, params, xb, y, ev)
+                stats["solves"] += 1
+                at = {"base": xb.tolist(), "y0": y.tolist(), "active": [int(b) for b in bits], "rho": rho, "dt": dt}
+                try:
+                    with np.errstate(all="ignore"):
+                        sv = step_solver(P, params, it0, dt, rho)
+                        sv.update_active_set(A)
+                        sv.update_derivs(it0)
+                        res = sv.solve(it0)
+                except StepSolverError:
+                    continue  # a direct solver may refuse systems of this condition
+                keys.append(f"{spec['tag']}|{ss}|{at['active']}|{dt}|{y.tolist()}")
+                scale = max(1.0, float(np.max(np.abs(s_))))
+                err = max(float(np.max(np.abs(res.iterate.x - xn))), float(np.max(np.abs(res.iterate.y - yn), initial=0.0))) / scale
+                stats["compared"] += 1
+                if not np.isfinite(err) or err > max(1e-8, 100.0 * cond * 2.2e-16):
+                    viol.append({"sig": f"C14|hugedt|step|{ss}", "msg": f"step for dt={dt:g} differs from the (extended precision) dense Newton step by relative {err:.3e} "
+                                 f"(cond {cond:.1e}) at {at}: got x={res.iterate.x.tolist()} want {xn.tolist()}", "detail": at})
+    seen, vs = set(), []
+    for v in viol:
+        if v["sig"] not in seen:
+            seen.add(v["sig"]); vs.append(v)
+    return {"outcome": "agree" if not viol else "violating", "key": keys, "violations": vs, "stats": stats}
+
+
 def run_case(case):
     if case.get("large"):
         return large_case(case)
+    if case.get("hugedt"):
+        return hugedt_case(case)
     if case.get("inertia"):
         return inertia_case(case)
     if case.get("units"):
